@@ -270,14 +270,17 @@ def splitAt (cfg : SplitCfg) (dflt : ν) (d : Nat) : (k : Nat) → Tree Int ν (
 
 /-- `Fiber.updatePayloads(func, depth=0)` as it is today (fiber.py:2561-2562):
     `for i, (c, p) in enumerate(self.iterOccupancy()): self.payloads[i] = func(i, c, p)` —
-    the non-empty elements are enumerated, the result is stored at the enumeration index.
+    the non-empty elements are enumerated, the result is stored at the enumeration index:
+    `writeBack` stores the i-th result at storage position i.
     `Sum.inl` = position left untouched, `Sum.inr` = position overwritten. -/
+def writeBack {κ α β : Type} : Fib κ α → List β → Fib κ (α ⊕ β)
+  | [], _ => []
+  | e :: r, [] => (e.1, Sum.inl e.2) :: writeBack r []
+  | e :: r, b :: bs => (e.1, Sum.inr b) :: writeBack r bs
+
 def updatePayloadsDrift {κ α β : Type} (isE : α → Bool) (g : α → Option β) (f : Fib κ α) :
     Option (Fib κ (α ⊕ β)) :=
-  (mapM? g ((f.filter (fun e => !isE e.2)).map (·.2))).map (fun res =>
-    f.zipIdx.map (fun ei => (ei.1.1, match res[ei.2]? with
-      | some r => Sum.inr r
-      | none => Sum.inl ei.1.2)))
+  (mapM? g ((f.filter (fun e => !isE e.2)).map (·.2))).map (writeBack f)
 
 /-- result of today's `_splitGeneric(depth = k+1)`: mixed-depth trees are possible -/
 def Mixed (ν : Type) (d : Nat) : Nat → Type
